@@ -80,3 +80,74 @@ let blkrb toks =
 let () =
   register "blkopt" blkopt; register "blkdec" blkdec; register "blksetup" blksetup;
   register "blkfls" blkfls; register "blkslice" blkslice; register "blkrb" blkrb
+
+(* ---- end-to-end traces (harness/h_block_e2e.c) ---- *)
+let fnv (l : z list) : int =
+  let h = ref 0x811c9dc5 in
+  List.iter (fun x -> h := ((!h lxor (int_of_z x land 0xff)) * 0x01000193) land 0xffffffff) l;
+  !h
+
+let body_of len seed = List.init len (fun i -> zbyte.(fill_byte seed i))
+
+(* num/m/szx/size/plen/phash *)
+let parse_blk tok =
+  match String.split_on_char '/' tok with
+  | [n; m; s; sz; pl; ph] ->
+      (int_of_string n, int_of_string m, int_of_string s,
+       (if sz = "-" then None else Some (int_of_string sz)), int_of_string pl,
+       int_of_string ("0x" ^ ph))
+  | _ -> failwith ("bad block token " ^ tok)
+
+(* is the observed block message the slice the model cuts?  (Slices.v vs the sender code) *)
+let consistent body blen (n, m, s, sz, pl, ph) =
+  let a = blk_arr_of body (z_of_int s) None (z_of_int n) in
+  let d = a.ba_data in
+  List.length d = pl && fnv d = ph && int_of_z a.ba_m = m && pl > 0
+  && (match sz with None -> true | Some x -> x = blen)
+
+(* blkwire <len> <seed> <blk>... : one letter per datagram, k = consistent, X = not *)
+let blkwire toks =
+  match toks with
+  | len :: seed :: blks ->
+      let blen = int_of_string len in
+      let body = body_of blen (int_of_string seed) in
+      String.concat "" (List.map (fun t -> if consistent body blen (parse_blk t) then "k" else "X") blks)
+  | _ -> failwith "blkwire args"
+
+let out_letter o =
+  match o with
+  | BoContinue -> "C" | BoReject -> "J" | BoFail -> "F" | BoDeliver _ -> "D" | BoPass -> "P"
+
+(* blkrecv <b1|b2> <len> <seed> <maxszx> { R | <blk> }... : the receiver model (blk_srv_step /
+   blk_cli_step) run over the blocks that reached the real receiver; R = the receiver dropped
+   its state (timeout / restart).  Output: one letter per block; a delivered body that is not
+   the submitted one is flagged '!'. *)
+let blkrecv toks =
+  match toks with
+  | dir :: len :: seed :: mx :: evs ->
+      let blen = int_of_string len in
+      let body = body_of blen (int_of_string seed) in
+      let junk _ = z_of_int (-1) in
+      let step =
+        if dir = "b1" then blk_srv_step junk (zi mx) else blk_cli_step junk in
+      let st = ref None in
+      let buf = Buffer.create 64 in
+      List.iter (fun t ->
+          if t = "R" then st := None
+          else begin
+            let (n, m, s, sz, pl, ph) = parse_blk t in
+            if not (consistent body blen (n, m, s, sz, pl, ph)) then Buffer.add_string buf "X"
+            else begin
+              let size = match sz with None -> None | Some x -> Some (z_of_int x) in
+              let a = blk_arr_of body (z_of_int s) size (z_of_int n) in
+              let (st', o) = step !st a in
+              st := st';
+              (match o with
+               | BoDeliver d when d <> body -> Buffer.add_string buf "!"
+               | _ -> Buffer.add_string buf (out_letter o))
+            end
+          end) evs;
+      Buffer.contents buf
+  | _ -> failwith "blkrecv args"
+
+let () = register "blkwire" blkwire; register "blkrecv" blkrecv
